@@ -28,7 +28,7 @@ def showResult : Result → String
 
 def parseMask (m : String) : Option Fixes :=
   match m.toList.map (· == '1') with
-  | [a, b, c, d, e, f] => if m.toList.all (fun x => x == '0' || x == '1') then some ⟨a, b, c, d, e, f⟩ else none
+  | [a, b, c, d, e, f, g, h, i] => if m.toList.all (fun x => x == '0' || x == '1') then some ⟨a, b, c, d, e, f, g, h, i⟩ else none
   | _ => none
 
 def runOn (fx : Fixes) (hex : String) : String :=
